@@ -12,10 +12,6 @@ namespace hv
     using namespace hgraph;
 
     // ------------------------------------------------------------ scenario tables
-    extern std::map<long long, std::map<long long, long long>> g_src_script;   // id -> offset -> value
-    struct TimerOp { char kind; long long n; std::string tag; };                // '+' delta, '@' abs offset, 'u' untag, 'U' un_schedule(), 'p' pop, 'r' reset
-    extern std::map<long long, std::map<long long, std::vector<TimerOp>>> g_timer_script;   // id -> k (0=start, n=n-th eval) -> ops
-    extern std::map<long long, long long> g_eval_count;                          // id -> evaluations so far (this run)
     void parse_timer_script(long long id, const std::string &text);
     void reset_vocab_counters();
     void dump_global_state(GlobalStateView gs);
@@ -23,8 +19,8 @@ namespace hv
     inline constexpr long long MODP = 1000003;
     inline long long norm(long long v) { v %= MODP; return v < 0 ? v + MODP : v; }
 
-    inline void u_start(long long id) { if (id) Line("u").str("e", "start").i("id", id).emit(); g_faults.maybe_throw(id, PH_START); }
-    inline void u_stop(long long id) { if (id) Line("u").str("e", "stop").i("id", id).emit(); g_faults.maybe_throw(id, PH_STOP); }
+    inline void u_start(long long id) { if (id) Line("u").str("e", "start").i("id", id).emit(); ctx().faults.maybe_throw(id, PH_START); }
+    inline void u_stop(long long id) { if (id) Line("u").str("e", "stop").i("id", id).emit(); ctx().faults.maybe_throw(id, PH_STOP); }
 
     struct InLog
     {
@@ -45,7 +41,6 @@ namespace hv
     // log the evaluation before doing anything that can throw
     inline void u_eval(long long id, DateTime now, const std::string &ins)
     {
-        ++g_eval_count[id];
         Line("ev").i("id", id).i("t", off(now)).raw("in", ins).emit();
     }
     inline void u_out(long long id, DateTime now, long long v) { Line("out").i("id", id).i("t", off(now)).i("v", v).emit(); }
@@ -57,7 +52,7 @@ namespace hv
         static void start(Scalar<"id", Int> id, NodeScheduler s)
         {
             u_start(id.value());
-            auto &sc = g_src_script[id.value()];
+            auto &sc = ctx().src_script[id.value()];
             if (!sc.empty())
             {
                 Line("req").i("id", id.value()).i("t", off(s.now())).i("when", sc.begin()->first).b("in_start", true).emit();
@@ -68,8 +63,8 @@ namespace hv
         static void eval(Scalar<"id", Int> id, NodeScheduler s, DateTime now, Out<TS<Int>> out)
         {
             u_eval(id.value(), now, "[]");
-            g_faults.maybe_throw(id.value(), PH_EVAL);
-            auto &sc = g_src_script[id.value()];
+            ctx().faults.maybe_throw(id.value(), PH_EVAL);
+            auto &sc = ctx().src_script[id.value()];
             auto it  = sc.find(off(now));
             if (it == sc.end()) return;
             out.set(Int{it->second});
@@ -93,7 +88,7 @@ namespace hv
                          State<Int> n, Out<TS<Int>> out)
         {
             u_eval(id.value(), now, "[]");
-            g_faults.maybe_throw(id.value(), PH_EVAL);
+            ctx().faults.maybe_throw(id.value(), PH_EVAL);
             const long long v = n.get() * 100 + 7;
             out.set(Int{v});
             u_out(id.value(), now, v);
@@ -144,7 +139,7 @@ namespace hv
         InLog il;
         (il.add(in), ...);
         u_eval(id, now, il.done());
-        g_faults.maybe_throw(id, PH_EVAL);
+        ctx().faults.maybe_throw(id, PH_EVAL);
         Mixer m;
         (m.add(in), ...);
         long long v;
@@ -213,7 +208,7 @@ namespace hv
             InLog il;
             il.add(a);
             u_eval(id.value(), now, il.done());
-            g_faults.maybe_throw(id.value(), PH_EVAL);
+            ctx().faults.maybe_throw(id.value(), PH_EVAL);
             const long long v = norm(s.get() + a.value());
             s.set(Int{v});
             out.set(Int{v});
@@ -229,7 +224,7 @@ namespace hv
             InLog il;
             il.add(a);
             u_eval(id.value(), now, il.done());
-            g_faults.maybe_throw(id.value(), PH_EVAL);
+            ctx().faults.maybe_throw(id.value(), PH_EVAL);
             out.set(Bool{(a.value() % 2 + 2) % 2 == 1});
         }
     };
@@ -252,7 +247,7 @@ namespace hv
                 acc += mix_w(i) * (c.valid() ? static_cast<long long>(c.value()) : -1) + (c.modified() ? mix_m(i) : 0);
             }
             u_eval(id.value(), now, il.done());
-            g_faults.maybe_throw(id.value(), PH_EVAL);
+            ctx().faults.maybe_throw(id.value(), PH_EVAL);
             out.set(Int{norm(acc)});
             u_out(id.value(), now, norm(acc));
         }
@@ -277,7 +272,7 @@ namespace hv
             il.add(a);
             il.add(b);
             u_eval(id.value(), now, il.done());
-            g_faults.maybe_throw(id.value(), PH_EVAL);
+            ctx().faults.maybe_throw(id.value(), PH_EVAL);
             Mixer m;
             m.add(a);
             m.add(b);
@@ -299,7 +294,7 @@ namespace hv
         static void eval(In<"a", TS<Int>> a, Scalar<"id", Int> id, DateTime now)
         {
             Line("rec").i("id", id.value()).i("t", off(now)).i("v", a.value()).b("m", a.modified()).emit();
-            g_faults.maybe_throw(id.value(), PH_EVAL);
+            ctx().faults.maybe_throw(id.value(), PH_EVAL);
         }
     };
     struct RecU
@@ -362,7 +357,7 @@ namespace hv
         static void eval(Scalar<"id", Int> id, NodeScheduler s, DateTime now, State<Int> n, Out<TS<Int>> out)
         {
             u_eval(id.value(), now, "[]");
-            g_faults.maybe_throw(id.value(), PH_EVAL);
+            ctx().faults.maybe_throw(id.value(), PH_EVAL);
             n.set(n.get() + 1);   // evaluation count is per node instance (duplicates with equal ids must not share it)
             const long long k = n.get();
             timer_run_ops(id.value(), k, s, false);
@@ -380,7 +375,7 @@ namespace hv
             InLog il;
             il.add(x);
             u_eval(id.value(), now, il.done());
-            g_faults.maybe_throw(id.value(), PH_EVAL);
+            ctx().faults.maybe_throw(id.value(), PH_EVAL);
             n.set(n.get() + 1);
             const long long k = n.get();
             timer_run_ops(id.value(), k, s, false);
@@ -400,7 +395,7 @@ namespace hv
             InLog il;
             il.add(x);
             u_eval(id.value(), now, il.done());
-            g_faults.maybe_throw(id.value(), PH_EVAL);
+            ctx().faults.maybe_throw(id.value(), PH_EVAL);
             n.set(n.get() + 1);
             const long long k = n.get();
             timer_run_ops(id.value(), k, s, false);
